@@ -67,6 +67,7 @@ impl Property for C12 {
             drop_final_newline: false,
             header_spacing: true,
             final_newline: None,
+            cr_at_eol: false,
         };
         let variants: &[bool] = if b.force_no_newline { &[false] } else { &[true, false] };
         for keep_nl in variants {
